@@ -54,7 +54,7 @@ namespace rkcommon {
     vec_t<size_t, NDIMS> operator*() const;
 
     multidim_index_iterator operator++();
-    multidim_index_iterator &operator++(int);
+    multidim_index_iterator operator++(int);
 
     multidim_index_iterator operator--();
     multidim_index_iterator &operator--(int);
@@ -158,10 +158,11 @@ namespace rkcommon {
 
   template <int NDIMS>
   inline multidim_index_iterator<NDIMS>
-      &multidim_index_iterator<NDIMS>::operator++(int)
+  multidim_index_iterator<NDIMS>::operator++(int)
   {
+    multidim_index_iterator<NDIMS> old(*this);
     current_index++;
-    return *this;
+    return old;
   }
 
   template <int NDIMS>
